@@ -28,6 +28,7 @@ type Engine struct {
 	effDone     map[*ssa.Function]bool
 	viaGlobal   map[ssa.Instruction]string          // write sites that go through a value read from a package-level variable
 	effSites    map[*ssa.Function][]ssa.Instruction // write sites to pre-existing memory, per function
+	renames     map[string]map[string]string // function -> local name in the contract -> its new name (pure renamings)
 	tinfo       map[string]*types.Info              // type information per package path (function-local constants)
 	activeProp  string                              // when set, only clauses serving this property are used (assumed and checked)
 }
